@@ -59,6 +59,9 @@ def run(idx, rep, tier):
             # the allocation bound to the returned name, or written in the returned tuple itself
             cands = [v for v, p, st in df.assignments(init.node).get(e.id, [])] if isinstance(e, ast.Name) else [e]
             for v in cands:
+                # the buffer under the writes that fill it: update_array(update_array(zeros(..), ..), ..) -> zeros(..)
+                while isinstance(v, ast.Call) and df.is_xnp_call(v) == "update_array" and v.args:
+                    v = df.resolve_value(init.node, v.args[0]) if isinstance(v.args[0], ast.Name) else v.args[0]
                 if isinstance(v, ast.Call) and df.is_xnp_call(v) in ALLOC:
                     shape = next((k.value for k in v.keywords if k.arg == "shape"), v.args[0] if v.args else None)
                     bufs[role] = (df.is_xnp_call(v), nospace(shape) if shape is not None else "", v)
@@ -66,7 +69,33 @@ def run(idx, rep, tier):
         rep.undecided("buffers", "init_arnoldi", f"buffers found: {sorted(bufs)}")
     else:
         cap = init.params[2] if len(init.params) > 2 else "max_iters"
-        ok = all(b[0] == "zeros" for b in bufs.values()) and f"{cap}+1,{cap})" in bufs["H"][1] and bufs["Q"][1].endswith(f"{cap}+1)")
+        def linform(e, fnode, depth=0):
+            """integer expression -> {name: coefficient, 1: constant} through singly-bound names; None outside the fragment"""
+            if isinstance(e, ast.Constant) and isinstance(e.value, int):
+                return {1: e.value}
+            if isinstance(e, ast.Name):
+                v = df.resolve_value(fnode, e)
+                if v is not e and depth < 5:
+                    return linform(v, fnode, depth + 1)
+                return {e.id: 1}
+            if isinstance(e, ast.BinOp) and isinstance(e.op, (ast.Add, ast.Sub)):
+                l, r = linform(e.left, fnode, depth), linform(e.right, fnode, depth)
+                if l is None or r is None:
+                    return None
+                out = dict(l)
+                for k_, c_ in r.items():
+                    out[k_] = out.get(k_, 0) + (c_ if isinstance(e.op, ast.Add) else -c_)
+                return {k_: c_ for k_, c_ in out.items() if c_}
+            return None
+
+        def dims(call):
+            shp = next((k.value for k in call.keywords if k.arg == "shape"), call.args[0] if call.args else None)
+            fnode = next((f_.node for f_ in idx.funcs.values() if any(x is call for x in ast.walk(f_.node))), init.node)
+            shp = df.resolve_value(fnode, shp) if isinstance(shp, ast.Name) else shp
+            return [linform(x, fnode) for x in shp.elts] if isinstance(shp, (ast.Tuple, ast.List)) else None
+        hd, qd = dims(bufs["H"][2]), dims(bufs["Q"][2])
+        ok = all(b[0] == "zeros" for b in bufs.values()) and hd is not None and qd is not None and len(hd) >= 2 and len(qd) >= 1 and \
+            hd[-2] == {cap: 1, 1: 1} and hd[-1] == {cap: 1} and qd[-1] == {cap: 1, 1: 1}
         rep.decide(ok, "buffers", "init_arnoldi", f"H = {bufs['H'][0]}{bufs['H'][1]}, Q = {bufs['Q'][0]}{bufs['Q'][1]}" + ("" if ok else f"; required zero-initialised (..., {cap}+1, {cap}) and (..., {cap}+1)"),
                    detail="" if ok else "buffers", locs=[idx.loc(init.module, init.node)])
         # arnoldi passes the *requested* cap (not the clipped one) to init_arnoldi
@@ -133,10 +162,33 @@ def run(idx, rep, tier):
     if qn is None:
         rep.undecided("eigs-pairing", "arnoldi_eigs", "the unpacking of arnoldi's result was not found")
     else:
-        ok = f"{qn}[:,:-1]" in src and f"{hn}[:-1]" in src
-        rep.decide(ok, "eigs-pairing", "arnoldi_eigs", "drops the last column of Q and the last row of H" if ok else "does not drop the last column of Q and last row of H consistently",
-                   detail="" if ok else "pairing", locs=[idx.loc(eigs.module, eigs.node)])
-        prod = f"{qn}@" in src
+        # H is (m + 1, m) and Q is (n, m + 1) (buffers rule): the Ritz problem uses the leading m rows of H and the first m columns of Q.
+        # "m" can be written as the stop -1, as the column count of H, or as a row / column count minus one.
+        def stop_kind(e):
+            e = df.resolve_value(eigs.node, e) if isinstance(e, ast.Name) else e
+            t = nospace(e).replace("[1]", "[-1]").replace("[0]", "[-2]")
+            if t in ("-1", f"{hn}.shape[-1]", f"{hn}.shape[-2]-1", f"{qn}.shape[-1]-1"):
+                return "m"
+            return t
+
+        def cut_of(name, axis_last):
+            """stop of the slice applied to `name` on its last (Q) / first (H) axis, wherever the slice is written"""
+            for n_ in df.body_nodes(eigs.node):
+                if isinstance(n_, ast.Subscript) and isinstance(n_.value, ast.Name) and n_.value.id == name:
+                    sl = n_.slice
+                    parts = sl.elts if isinstance(sl, ast.Tuple) else [sl]
+                    part = parts[-1] if axis_last else parts[0]
+                    full_before = all(isinstance(p_, ast.Slice) and p_.lower is None and p_.upper is None for p_ in (parts[:-1] if axis_last else parts[1:]))
+                    if isinstance(part, ast.Slice) and part.lower is None and part.upper is not None and part.step is None and (full_before or len(parts) == 1) and \
+                            (len(parts) == (2 if axis_last else 1) or not axis_last):
+                        return stop_kind(part.upper)
+            return None
+        qc, hc = cut_of(qn, True), cut_of(hn, False)
+        ok = qc == "m" and hc == "m"
+        rep.decide(ok if (ok or qc is not None or hc is not None) else None, "eigs-pairing", "arnoldi_eigs", "drops the last column of Q and the last row of H" if ok else
+                   f"Q is cut to `{qc}` columns and H to `{hc}` rows: not the square leading block for both", detail="" if ok else "pairing", locs=[idx.loc(eigs.module, eigs.node)])
+        prod = any(isinstance(n_, ast.BinOp) and isinstance(n_.op, ast.MatMult) and qn in {x.id for x in ast.walk(df.resolve_value(eigs.node, n_.left)) if isinstance(x, ast.Name)} | (
+            {n_.left.id} if isinstance(n_.left, ast.Name) else set()) for n_ in df.body_nodes(eigs.node)) or f"{qn}@" in src
         rep.decide(True if prod else None, "eigs-pairing", "arnoldi_eigs:vectors", "Ritz vectors are Q times the eigenvectors of H", locs=[idx.loc(eigs.module, eigs.node)])
     # ---- arnoldi_eigs returns EVERY Ritz value of H: no data-dependent mask on the spectrum
     masks = []
